@@ -5,7 +5,7 @@ import ast
 import os
 from typing import Dict, List, Optional
 
-from ..astutil import Inliner, attr_chain, call_name, const_value, match, returns_of, stmts_of
+from ..astutil import Inliner, attr_chain, call_name, const_value, match, returns_of, stmts_of, statement_texts
 from ..closedform import classify
 from ..core import OK, UNDECIDED, VIOLATION, VERIF_DIR, AnalysisError, FuncInfo, Repo, Report, unparse
 from ..polarity import D, I, Polarity, mk
@@ -85,7 +85,7 @@ def rule_rank_table(repo: Repo, rep: Report) -> int:
 
 def rule_info_set(repo: Repo, rep: Report) -> int:
     fi = repo.func(PE, "PolarCodeEncoder.__init__")
-    body = [unparse(s) for s in stmts_of(fi.body)]
+    body = statement_texts(fi)
     n = 0
     frozen = [s for s in stmts_of(fi.body) if isinstance(s, ast.Assign) and isinstance(s.targets[0], ast.Subscript) and unparse(s.targets[0].value) == "F"]
     if len(frozen) != 1:
@@ -256,7 +256,7 @@ def rule_sc_shape(repo: Repo, rep: Report) -> int:
         n += 1
     # encoder butterfly: XOR of the paired positions
     pt = repo.func(PE, "PolarCodeEncoder.polar_transform")
-    body = [unparse(s) for s in stmts_of(pt.body)]
+    body = statement_texts(pt)
     rep.expect("x[:, self.mask_dict[i]] = torch.bitwise_xor(x[:, self.mask_dict[i]], x[:, self.mask_dict[i] + add_k])" in body and "add_k = N // 2 ** (i_back + 1)" in body and "i_back = self.m - i - 1" in body, "SC-SHAPE", pt, "butterfly: x[mask_i] ^= x[mask_i + N / 2^(i_back+1)] for the m stages", "XOR network of the transform", "butterfly step changed")
     n += 1
     # interleaved variant: after stage i every block of 2^(i+1) positions is perfectly shuffled (first half to the even,
